@@ -306,6 +306,12 @@ def run_program(item):
                 return DF.add_computed_field(target=dict(name='zA', type='string'), operation='constant', with_='A')
             if how == 'acf_str':
                 return DF.add_computed_field(target='zA', operation='format', with_='{b}')
+            if how == 'update_schema':        # the whole field list given once, for every resource (zA is new: its cells are nulls)
+                return DF.update_schema(None, fields=[dict(name='a', type='integer'), dict(name='b', type='string'), dict(name='rid', type='integer'),
+                                                      dict(name='zA', type='string')])
+            if how == 'update_resource':
+                return DF.update_resource(None, schema=dict(fields=[dict(name='a', type='integer'), dict(name='b', type='string'), dict(name='rid', type='integer'),
+                                                                    dict(name='zA', type='string')], primaryKey=['a']))
             if how == 'unpivot':
                 return DF.unpivot([dict(name='b', keys=dict(k='b'))], [dict(name='k', type='string')], dict(name='zA', type='string'))
             return DF.add_field('zA', 'string', 'A')
@@ -493,7 +499,7 @@ def run():
         else:
             cands0 = [c for c in by_names.get(names, []) if c['kind'] == 'touch' and c['selected']]
             c0 = r.choice(cands0)
-            progs.append(dict(names=list(names), s1=dict(sel=dict(k='none'), kind='addall', marker='A', how=r.choice(['add_field', 'acf_dict', 'acf_str', 'unpivot'])),
+            progs.append(dict(names=list(names), s1=dict(sel=dict(k='none'), kind='addall', marker='A', how=r.choice(['add_field', 'acf_dict', 'acf_str', 'unpivot', 'update_schema', 'update_resource'])),
                               s2=dict(sel=c0['sel'], kind='retype', marker='B'), exp_names=list(names),
                               exp_A=list(names), exp_B=[names[p - 1] for p in c0['selected']]))
     pres = pmap(run_program, progs, chunksize=32)
